@@ -226,8 +226,10 @@ class TestResult(unittest.TestResult):
         self._tags = TagContext(self._tags)
 
     def stopTest(self, test):
-        # NOTE: In Python 3.12.1 skipped tests may not call startTest()
-        if self._tags is not None:
+        # NOTE: In Python 3.12.1 skipped tests may not call startTest(): there
+        # is then no test-local tag context to leave, and the run-level one
+        # must stay in place.
+        if self._tags.parent is not None:
             self._tags = self._tags.parent
         super().stopTest(test)
 
@@ -1596,8 +1598,10 @@ class ExtendedToOriginalDecorator:
         self.shouldStop = True
 
     def stopTest(self, test):
-        # NOTE: In Python 3.12.1 skipped tests may not call startTest()
-        if self._tags is not None:
+        # NOTE: In Python 3.12.1 skipped tests may not call startTest(): there
+        # is then no test-local tag context to leave, and the run-level one
+        # must stay in place.
+        if self._tags.parent is not None:
             self._tags = self._tags.parent
         return self.decorated.stopTest(test)
 
@@ -1660,8 +1664,10 @@ class ExtendedToStreamDecorator(CopyStreamResult, StreamSummary, TestControl):
         self._tags = TagContext(self._tags)
 
     def stopTest(self, test):
-        # NOTE: In Python 3.12.1 skipped tests may not call startTest()
-        if self._tags is not None:
+        # NOTE: In Python 3.12.1 skipped tests may not call startTest(): there
+        # is then no test-local tag context to leave, and the run-level one
+        # must stay in place.
+        if self._tags.parent is not None:
             self._tags = self._tags.parent
 
     def addError(self, test, err=None, details=None):
